@@ -334,7 +334,8 @@ func CompactTypes(module *Module) {
 
 // inlineRemovedExpressionTypes rewrites ExpressionTypes entries whose type
 // handle is about to be removed into value resolutions, for the handle-free
-// concrete types (scalar, vector, matrix).
+// concrete types (scalar, vector, matrix) and for pointer types, whose base
+// outlives this run because the removed pointer type still refers to it.
 func inlineRemovedExpressionTypes(f *Function, remap []TypeHandle, oldTypes []Type) {
 	for ti := range f.ExpressionTypes {
 		tr := &f.ExpressionTypes[ti]
@@ -346,7 +347,7 @@ func inlineRemovedExpressionTypes(f *Function, remap []TypeHandle, oldTypes []Ty
 			continue
 		}
 		switch inner.(type) {
-		case ScalarType, VectorType, MatrixType:
+		case ScalarType, VectorType, MatrixType, PointerType, ValuePointerType:
 			tr.Value = inner
 			tr.Handle = nil
 		}
